@@ -547,3 +547,7 @@ for _p, _t in {
     "C20": "Kani/CBMC: Move::pgn_notation against the specified record text for every move value; slices of get_pgn and fen; native display test",
 }.items():
     PROPS[_p]["technique"] = _t
+
+ob("fen_side_key_contract", "chess::verif_chess::fen::fen_side_key_contract", ["C04", "C17"],
+   "slice verif_fen_side_key: the importer XORs the published side key into the hash exactly when Black is to move", _F17, timeout=300)
+OB_SLICES["fen_side_key_contract"] = ["verif_fen_side_key"]
